@@ -7,10 +7,7 @@ From OC Require Import Model.Proto3 Spec.Tla3 Proofs.Proto3Proofs Proofs.Proto3O
 Import ListNotations.
 Open Scope N_scope.
 
-Ltac tx_sinv HS g t' extra :=
-  let HS' := fresh "HS'" in pose proof HS as HS'; destruct HS';
-  constructor; intros; split_upd; rwt t';
-  first [ solve [eauto] | solve [intros; lia] | (splits; inst0 HS; inst1 HS g; inst2 HS g; extra; finish) ].
+Ltac tx_sinv HS g t' extra := sinv_by ltac:(split_upd; rwt t') HS g extra.
 
 Ltac tx_hinv HH Hi t' :=
   eapply HInv_tx; [exact HH | exact Hi | rwt t'; try lia; auto
@@ -45,4 +42,51 @@ Lemma tx_C3 g n cm ap h i t t' :
   IA (updf g i t') n cm ap (h ++ [ev PhChange StCommit i Failed]).
 Proof.
   intros [HS HH] Hi G1 G2 F. getflds F. split; [tx_sinv HS g t' idtac | tx_hinv HH Hi t'].
+Qed.
+
+(* commitRollback PENDING -> IN_PROGRESS (Committed.Target already names the rollback index) *)
+Lemma tx_R1' g n cm ap h i t t' :
+  IA g n cm ap h -> g i = Some t ->
+  rc t = 0 -> k_revision cm = i -> k_target cm = t_ridx t ->
+  flds t' = (t_rb t, t_cc t, t_ca t, t_cord t, Some InProgress, t_ra t, t_rord t, t_ridx t) ->
+  IA (updf g i t') n cm ap (h ++ []).
+Proof.
+  intros [HS HH] Hi G1 G2 G3 F. getflds F. split; [tx_sinv HS g t' idtac | tx_hinv HH Hi t'].
+Qed.
+
+(* commitRollback IN_PROGRESS -> COMPLETE once the committed revision has moved off the transaction *)
+Lemma tx_R3 g n cm ap h i t t' :
+  IA g n cm ap h -> g i = Some t ->
+  rc t = 1 -> k_revision cm <> i ->
+  flds t' = (t_rb t, t_cc t, t_ca t, t_cord t, Some Complete, t_ra t, k_ordinal cm, t_ridx t) ->
+  IA (updf g i t') n cm ap (h ++ []).
+Proof.
+  intros [HS HH] Hi G1 G2 F. getflds F. split; [tx_sinv HS g t' idtac | tx_hinv HH Hi t'].
+Qed.
+
+(* RollbackChange request: phase := ROLLBACK, both rollback phases PENDING *)
+Lemma tx_Rb g n cm ap h i t t' :
+  IA g n cm ap h -> g i = Some t ->
+  flds t' = (true, t_cc t, t_ca t, t_cord t, Some Pending, Some Pending, t_rord t, t_ridx t) ->
+  IA (updf g i t') n cm ap h.
+Proof.
+  intros [HS HH] Hi F. getflds F. split; [tx_sinv HS g t' idtac |].
+  rewrite <- (app_nil_r h). tx_hinv HH Hi t'.
+Qed.
+
+(* AppendChange: a new transaction with every phase PENDING at the end of the log *)
+Lemma tx_append g n cm ap h t' :
+  IA g n cm ap h ->
+  flds t' = (false, Pending, Pending, 0, None, None, 0, 0) ->
+  IA (fun j => if j =? n + 1 then Some t' else g j) (n + 1) cm ap h.
+Proof.
+  intros [HS HH] F. getflds F. change (fun j => if j =? n + 1 then Some t' else g j) with (updf g (n + 1) t').
+  split.
+  - sinv_by ltac:(split_upd; rwt t') HS g idtac.
+  - destruct HH as [X1 X2 X3 X4]. constructor; auto.
+    + intros j u Hj Hc. apply updf_inv in Hj. destruct Hj as [[-> ->] | [Hne Hj]]; [|eauto].
+      rewrite Fcc in Hc. cbn in Hc. lia.
+    + intros e He Hb. destruct (X3 e He Hb) as [t0 [Ht0 [Hc Ho]]]. exists t0. split; [|auto].
+      unfold updf. destruct (e_index e =? n + 1) eqn:E; [|exact Ht0].
+      apply N.eqb_eq in E. pose proof (s_dom _ _ _ _ HS _ _ Ht0). lia.
 Qed.
